@@ -79,7 +79,7 @@ def draw_cfg(st):
         if cname not in [c for c, _m in ex]:
             ex.append([cname, "fields"])
     cfg["extractors"] = ex
-    cfg["faulty"] = [[list(MASKS[st.choose(len(MASKS), "mask")]), st.choose(5, "exc-kind")]
+    cfg["faulty"] = [[list(MASKS[st.choose(len(MASKS), "mask")]), st.choose(6, "exc-kind")]
                      for _ in range(st.choose(3, "n-faulty"))]
     return cfg
 
